@@ -31,7 +31,7 @@ Definition okvars (v : list str) : Prop := length v <= length vals /\ incl v var
 Lemma okvars_len v : okvars v -> length v <= length vals.
 Proof. intros [H _]. exact H. Qed.
 
-Definition okvar (i : nat) (_ : str) : Prop := i < length vals.
+Definition okvar (i : nat) (x : str) : Prop := index_of x vars 0 = Some i.
 Local Notation dden := (dden C (vlook C vals)).
 Local Notation nden := (nden C (vlook C vals)).
 Local Notation dwf := (dwf flagged okvar okvars).
@@ -194,7 +194,7 @@ Proof.
               try (intros e1 E; discriminate); try (intros y []); try (intros Hy; exact Hy).
           * cbn [vars_in_atom] in Hv. destruct Hv as [i Hi]. destruct (var_facts x i Hi) as (Hil & Hin & Hpos).
             exists (DVar i x), (TVar x), f. cbn [Deep.dparse]. unfold var_index. rewrite Hi. cbn [bind].
-            split; [reflexivity|]. split; [cbn in Hfuel; lia|]. split; [split; [exact Hil|intros y [<-|[]]; exact Hin]|].
+            split; [reflexivity|]. split; [cbn in Hfuel; lia|]. split; [split; [exact Hi|intros y [<-|[]]; exact Hin]|].
             split; [split; [reflexivity|intros e1 E; discriminate]|]. split; [|reflexivity].
             cbn [nden RefSem.ref_atom apply_unary fold_right leaf_val]. rewrite Hpos. apply R_refl.
         + cbn [forallb] in Hwf. apply andb_prop in Hwf. destruct Hwf as [Hu Hus].
@@ -211,7 +211,7 @@ Proof.
           * cbn [vars_in_atom] in Hv. destruct Hv as [i Hi]. destruct (var_facts x i Hi) as (Hil & Hin & Hpos).
             unfold var_index. rewrite Hi. cbn [bind].
             destruct (new_deepex_ok [DVar i x] [] (u :: us) eq_refl) as (e & He & Hwe & Hr & Hdv).
-            { constructor; [|constructor]. split; [exact Hil|]. intros y [<-|[]]. exact Hin. }
+            { constructor; [|constructor]. split; [exact Hi|]. intros y [<-|[]]. exact Hin. }
             { intros ? []. }
             rewrite He. cbn [bind].
             exists (DExpr e), (TVar x), f. split; [reflexivity|]. split; [exact Hft|]. split; [split|split; [|split; [|reflexivity]]].
